@@ -5,6 +5,7 @@ From Bnum Require Import Base Prim.
 From Bnum.Model Require Import Digit DigitPrims LoopPrims Core AddSub Imp ImpParse Parse.
 From Bnum.Generated Require Import DigitGen ParseGen.
 From Bnum.Proofs Require Import ImpLemmas ImpLemmas2 ParseGenTieA ParseGenTieB.
+From Bnum.Proofs Require Import ParseSpec.
 From Bnum.Proofs Require DigitTie AddSub ParseArith.
 
 (* ---------- digit `*` and `+` ---------- *)
@@ -30,8 +31,6 @@ Proof.
   destruct (Z.ltb_spec (a + b) (B w)); [left; eexists; split; [reflexivity | lia]|].
   destruct dbg; [right; reflexivity | left; eexists; split; [reflexivity | apply Z.mod_pos_bound; lia]].
 Qed.
-
-Definition bytes (s : list Z) : Prop := Forall (fun b => 0 <= b < 256) s.
 
 (* ---------- acc_digits: `acc = acc * (radix as Digit) + d as Digit` over a run of input digits ---------- *)
 
